@@ -9,7 +9,17 @@ import "sync"
 // FixedPool in [-1, len+1] or no option, both order modes, every schedule with <= 1 preemption (thorough 2).
 
 func vh_C16_PMap() {
-	n := vfRange("n", 0, 3+vfTier())
+	c16Run(vfRange("n", 0, 3+vfTier()))
+}
+
+// larger lists and every pool size around them, on the base schedule only (delay bound 0): size- and
+// option-dependent behaviour (batching, remainders, clamps) that does not need a particular interleaving
+func vh_C16_PMapSizes() {
+	vfSetDelayBound(0)
+	c16Run(vfRange("n", 4, 7+2*vfTier()))
+}
+
+func c16Run(n int) {
 	list := make([]int, n)
 	for i := range list {
 		list[i] = vfInt("e")
